@@ -60,6 +60,28 @@ def run(ctx):
                     nmax += 1
     R.ob(nmax == 3, "WIRE", atb.where(), "WIRE|u64-max-callers", "expected exactly deposit, withdraw and genesis to run with u64::MAX inscription length, found %d" % nmax,
          sample={"rule": "WIRE", "row": "deposit/withdraw/genesis -> u64::MAX (saturates)", "count": nmax})
+    # precompile results: success kinds pay what was recorded, failure kinds consume everything that was forwarded.  A
+    # *refunding* failure (Revert and its class) makes a precompile call cheaper when it fails than when it succeeds: success
+    # of the enclosing call is then not monotone in the gas limit and the bisection behind eth_estimateGas can settle in a
+    # cheap window below a failing band.
+    PAYING = {"Stop", "Return", "OutOfGas", "PrecompileError", "PrecompileOOG", "MemoryOOG", "MemoryLimitOOG", "InvalidOperandOOG", "FatalExternalError"}
+    kinds = {}
+    for f in F.body_fns():
+        if "::tests::" in f.name or "precompile" not in f.name.lower():
+            continue
+        for bi, b in enumerate(f.blocks):
+            if f.is_cleanup(bi):
+                continue
+            for st in b["stmts"]:
+                if st["k"] == "assign" and st["rv"]["k"] == "agg" and (st["rv"].get("adt") or "").endswith("InstructionResult"):
+                    kinds.setdefault(st["rv"].get("variant"), []).append((f, st.get("line")))
+    R.floor("precompile_result_kinds", len(kinds), 3)
+    for v, where in sorted(kinds.items()):
+        f, line = where[0]
+        R.ob(v in PAYING, "GAS", "%s:%s" % (f.loc["f"], line), "GAS|precompile-result-kind|%s" % v,
+             "a precompile produces InstructionResult::%s (in %s): a failing precompile call that hands the unspent gas back is cheaper than a "
+             "succeeding one, so whether the caller succeeds is no longer monotone in the gas limit and eth_estimateGas can return an "
+             "insufficient figure" % (v, f.name.split("::")[-1]), sample={"rule": "GAS result kinds", "kind": v, "sites": len(where)})
     # bisection shape
     for hname in ("eth_estimateGas", "eth_estimateGasMany"):
         hs = [h for (n, ms, hh, c) in roles.rpc_methods(F) if n == hname for h in hh]
